@@ -3,6 +3,7 @@ import SkgVerif.Gen.STModelsReal
 import SkgVerif.Gen.STModelsExec
 import SkgVerif.Gen.Tables
 import Mathlib.Tactic
+import SkgVerif.Props.Transcribed.C15
 /-!
 # C15 — the space-time model is fitted to each cell at its own space and time lag
 -/
